@@ -37,7 +37,7 @@ CLAIMED['C01'] = dict(
    technique="Coq proof, end to end (graph invariants + writer/reader simulation: valid_smiles_under T (decoder s) = true below 100 ring pairs) + refutation witness at the bound + exact correspondence of the decoder model + extracted independent-reader oracle",
    design_ref="5/C01")
 CLAIMED['C02'] = dict(
-   text="Kernel-checked AS STATED, for all tables with '?' and all well-formed strings whose symbols are within the int() digit limit and which have fewer than 100 ring symbols (props/C02.v: C02_decoder_refines_grammar): whenever the decoder model returns a string, the documented derivation (spec/DocGrammar.v: grammar_eval, written from docs/source/derivation.rst independently of decoder.py - token array with a position pointer, neighbour slots, free valence recomputed from the slots) assigns a molecule g to the same symbols, and the molecule the independent SMILES reader reads from the decoder's output is exactly g - atoms in derivation order with all their fields, neighbour lists in written order, bond orders, cis/trans marks, ring flags (the writer's emission order is proved to be the creation order 0, 1, 2, ...: proofs/Preorder.v). Route, all by induction over unbounded inputs: the decoder's atom symbols are the documented grammar's with the same reading and alpha (DocAtoms); the derivation pass simulates the documented pointer machine dd step for step, budgets and index symbols included (DocDerive); the ring-forming pass simulates the documented second pass form_one, insertion positions and raised orders included (DocRings); the read-back of the printed string (WriterSim/WriterFinal, shared with C01) closes the loop (DocFinal). Also: every rejection is a DecoderError (both flags); strings whose symbols are all in the grammar are accepted; every rule's arithmetic and every symbol table (regenerated from source) equals the documented one; index code = documented base-16 code. The rejection sentence is a theorem too (C02_rejected_exactly_when, C02_rejection_refines_grammar; no ring bound needed): for well-formed strings the decoder accepts exactly the strings the documented derivation accepts, every rejection is a DecoderError and is a rejection of the documented derivation (DocConverse: what the documented grammar reads as an atom symbol the decoder reads as one, symbols that look like branch / ring symbols are no atom symbols; DocReject: error simulation; DocAccept). Not a theorem: the sharp bound (100 ring symbols: known finding of C01), and strings with an unclosed bracket (covered by the correspondence and the outcome oracle). The model is tied to the code by exact-output correspondence, and the extracted grammar_eval still judges every implementation output (bounded-exhaustive over a rule-covering symbol set, and sampled).",
+   text="Kernel-checked AS STATED, for all tables with '?' and all well-formed strings whose symbols are within the int() digit limit and which have fewer than 100 ring symbols (props/C02.v: C02_decoder_refines_grammar): whenever the decoder model returns a string, the documented derivation (spec/DocGrammar.v: grammar_eval, written from docs/source/derivation.rst independently of decoder.py - token array with a position pointer, neighbour slots, free valence recomputed from the slots) assigns a molecule g to the same symbols, and the molecule the independent SMILES reader reads from the decoder's output is exactly g - atoms in derivation order with all their fields, neighbour lists in written order, bond orders, cis/trans marks, ring flags (the writer's emission order is proved to be the creation order 0, 1, 2, ...: proofs/Preorder.v). Route, all by induction over unbounded inputs: the decoder's atom symbols are the documented grammar's with the same reading and alpha (DocAtoms); the derivation pass simulates the documented pointer machine dd step for step, budgets and index symbols included (DocDerive); the ring-forming pass simulates the documented second pass form_one, insertion positions and raised orders included (DocRings); the read-back of the printed string (WriterSim/WriterFinal, shared with C01) closes the loop (DocFinal). Also: every rejection is a DecoderError (both flags); strings whose symbols are all in the grammar are accepted; every rule's arithmetic and every symbol table (regenerated from source) equals the documented one; index code = documented base-16 code. The rejection sentence is a theorem too (C02_rejected_exactly_when, C02_rejection_refines_grammar; no ring bound needed): for well-formed strings the decoder accepts exactly the strings the documented derivation accepts, every rejection is a DecoderError and is a rejection of the documented derivation (DocConverse: what the documented grammar reads as an atom symbol the decoder reads as one, symbols that look like branch / ring symbols are no atom symbols; DocReject: error simulation; DocAccept). A string with an unclosed bracket is always rejected with DecoderError (C02_unclosed_bracket_rejected, proofs/Hanging.v). Not a theorem: the sharp bound (100 ring symbols: known finding of C01). The model is tied to the code by exact-output correspondence, and the extracted grammar_eval still judges every implementation output (bounded-exhaustive over a rule-covering symbol set, and sampled).",
    technique="Coq proof: refinement of the documented derivation (atom-symbol grammar, pointer-machine simulation of the derivation pass, simulation of the ring pass, reader/writer simulation) + extracted documented-grammar evaluator and independent reader as oracle (bounded-exhaustive + sampled) + exact correspondence",
    design_ref="5/C02")
 CLAIMED['C08'] = dict(
